@@ -110,7 +110,13 @@ func harnessOverlay(repo, verif string) (map[string][]byte, []string, error) {
 			if base != "intrinsics" {
 				src, _ = os.ReadFile(tf)
 			}
-			ov[filepath.Join(repo, rel, "zz_vp_common_"+base+".go")] = []byte(strings.Replace(string(src), "package PKG", "package "+pkgName, 1))
+			text := strings.Replace(string(src), "package PKG", "package "+pkgName, 1)
+			if pkgName == "node" && base != "intrinsics" {
+				// inside package node the API is unqualified
+				text = strings.Replace(text, "\t\"github.com/freeconf/yang/node\"\n", "", 1)
+				text = strings.ReplaceAll(text, "node.", "")
+			}
+			ov[filepath.Join(repo, rel, "zz_vp_common_"+base+".go")] = []byte(text)
 		}
 		pkgDirs = append(pkgDirs, "./"+rel)
 	}
